@@ -1065,13 +1065,24 @@ func genGsubLookup1(t *rapid.T, n int, subsetOnly bool, force int) *gtab.LookupT
 		cov, keys := genCovTable(t, n, 3)
 		repl := make([][]gtab.Ligature, len(keys))
 		for i := range repl {
-			k := rapid.IntRange(1, 2).Draw(t, "ligN")
+			k := rapid.IntRange(1, 3).Draw(t, "ligN")
 			seen := map[string]bool{}
 			for j := 0; j < k; j++ {
 				m := rapid.IntRange(1, 3).Draw(t, "ligLen")
 				in := make([]glyph.ID, m)
 				for q := range in {
 					in[q] = glyph.ID(gidGen(n).Draw(t, "ligIn"))
+				}
+				// a ligature behind a shorter one that is its prefix (it never
+				// fires: the order inside a set is part of the font), or in
+				// front of it
+				if len(repl[i]) > 0 && rapid.Bool().Draw(t, "ligPrefix") {
+					prev := repl[i][rapid.IntRange(0, len(repl[i])-1).Draw(t, "ligPrefixOf")].In
+					if rapid.Bool().Draw(t, "ligLonger") {
+						in = append(append([]glyph.ID{}, prev...), in...)
+					} else if len(prev) > 1 {
+						in = append([]glyph.ID{}, prev[:rapid.IntRange(1, len(prev)-1).Draw(t, "ligShorter")]...)
+					}
 				}
 				key := fmt.Sprint(in)
 				if seen[key] {
